@@ -156,6 +156,14 @@ bool splinetable<Alloc>::read_fits_mem(void* buffer, size_t buffer_size){
 template<typename Alloc>
 bool splinetable<Alloc>::read_fits_core(fitsfile* fits, const std::string& filePath){
 	int error = 0;
+	
+	//If reading fails part way, discard what has been read so far and leave
+	//the table empty, rather than partially constructed
+	struct read_guard{
+		splinetable& table;
+		bool armed;
+		~read_guard(){ if(armed) table.release(); }
+	} guard{*this,true};
 	//if (error != 0)
 	//	throw std::runtime_error("Failed to move to HDU 1 in "+filePath);
 	
@@ -284,8 +292,10 @@ bool splinetable<Alloc>::read_fits_core(fitsfile* fits, const std::string& fileP
 	//arrays which don't depend on the orders or numbers of knots before the
 	//ones which do
 	knots = allocate<double_ptr>(ndim);
+	std::fill(knots,knots+ndim,nullptr);
 	nknots = allocate<uint64_t>(ndim);
 	extents = allocate<double_ptr>(ndim);
+	std::fill(extents,extents+ndim,nullptr);
 	extents[0] = allocate<double>(2*ndim);
 	
 	//Read the coefficient table
@@ -394,6 +404,7 @@ bool splinetable<Alloc>::read_fits_core(fitsfile* fits, const std::string& fileP
 	if(error!=0)
 		throw std::runtime_error("Error reading "+filePath+": Error "+std::to_string(error));
 	
+	guard.armed=false;
 	return (error==0);
 }
 
